@@ -55,6 +55,60 @@ HARD_TIMEOUT_S = {"quick": 900, "thorough": 7200}
 
 _PATHS = None
 
+# -- grammar grid: degenerate keyword parameters and search operands ---------
+KEYWORDS = ["has_child", "name", "max", "min", "parent", "unique", "distinct"]
+PARAMS = ["", ",", "a", "a,", ",a", "a,b", " ", "''", '""', "&", "&a", "&x",
+          "0", "1", "-1", "9", "1.5", "x", "*", ".", "a.b", "/", "\\,",
+          "a\\,b", "' '", "~", "1,2", "-", "+1", "1e3", "0x1", "١"]
+ATTRS = [".", "a", "b", "*", "**", "a.b", "&x", "''", "1", "0", "-1", "a*",
+         "\\.", " a"]
+OPERATORS = ["=", "==", "!=", "<", ">", "<=", ">=", "^", "$", "%", "=~",
+             "!<", "!>", "!^", "!$", "!%", "!=~"]
+TERMS = ["", "a", "1", "1.5", "-1", "0", "''", '""', " ", "~", "null", "true",
+         "False", "None", "[1]", "{}", "(1,)", "1e999", "-1e999", "nan", "1j",
+         "0x10", "1_0", "١", "b'a'", "...", "\"\\\"", "a b", "1 2", "é",
+         "9" * 30, "1" + "0" * 400]
+REGEX_TERMS = ["/a/", "/(/", "/", "//", "/[/", "/a", "a", "", "/*/", "/(?P<x/",
+               "/\\/", "/a/b/", ",a,", "|(|", "/(a|)/", "/^$/", "/./",
+               "/(?i)A/", "/a{2,1}/", "/\\1/"]
+PREFIXES = ["", "/a", "/*"]
+
+
+def grammar_paths():
+    out = []
+    for pre in PREFIXES:
+        for kw in KEYWORDS:
+            for inv in ("", "!"):
+                for prm in PARAMS:
+                    out.append("%s[%s%s(%s)]" % (pre or "/", inv, kw, prm)
+                               if not pre else
+                               "%s[%s%s(%s)]" % (pre, inv, kw, prm))
+    for pre in PREFIXES[:2]:
+        for attr in ATTRS:
+            for op in OPERATORS:
+                terms = REGEX_TERMS if op.endswith("=~") else TERMS
+                for term in terms:
+                    out.append("%s[%s%s%s]" % (pre or "/", attr, op, term)
+                               if not pre else
+                               "%s[%s%s%s]" % (pre, attr, op, term))
+    return out
+
+
+def grammar_docs():
+    S = lambda v: ["S", v, None]
+    extra = [
+        ["M", [["a", ["L", [["M", [["a", S(1)], ["b", S("x")]], None],
+                            ["M", [["a", S(None)]], None], S(3)], None]]],
+         None],
+        ["M", [["a", ["M", [["a", ["M", [["a", S(1)]], None]],
+                            ["b", ["M", [["b", S(2)]], None]]], None]]], None],
+        ["L", [["L", [S(1), S(2)], None], ["L", [], None]], None],
+        ["M", [["a", ["T", ["a", "b"], None]], ["b", S(1.5)]], None],
+        ["M", [["a", ["L", [S("a"), S(1), S(None), S(True), S(1.5)], None]]],
+         None],
+    ]
+    return gdocs.specs_upto(2) + family_docs()[::5] + extra
+
 
 def join(items):
     out = ""
@@ -137,6 +191,10 @@ def plan(tier, seed):
         shards.append({"kind": "grid", "nmax": nmax, "part": i, "parts": nsh,
                        "offset": seed,
                        "wstride": 6 if tier == "quick" else 12})
+    ng = 16 if tier == "quick" else 32
+    for i in range(ng):
+        shards.append({"kind": "grammar", "part": i, "parts": ng,
+                       "offset": seed})
     nh, per = (16, 300) if tier == "quick" else (64, 3000)
     for i in range(nh):
         shards.append({"kind": "hyp", "seed": seed * 1000 + i,
@@ -175,6 +233,32 @@ def run_shard(shard):
                     run_entry(fresh, ptext, entry, res, text)
                     if container and any(c in ptext for c in "[(*"):
                         res.nt_count += 1
+    elif shard["kind"] == "grammar":
+        docs = grammar_docs()
+        paths = grammar_paths()[shard["part"]::shard["parts"]]
+        for di, spec in enumerate(docs):
+            if dl.expired():
+                res.truncated = True
+                break
+            text = gdocs.emit(spec)
+            doc, ok = gdocs.load(text)
+            if not ok or doc is None:
+                continue
+            container = isinstance(doc, (dict, list))
+            for pi, ptext in enumerate(paths):
+                entry = ("required", "required", "exists", "required",
+                         "required", "exists", "required", "optional")[
+                    (pi + di + shard["offset"]) % 8]
+                if run_entry(doc, ptext, entry, res, text):
+                    doc, _ = gdocs.load(text)
+                if container:
+                    res.nt_count += 1
+                    if len(res.samples) < 2 and (pi + di) % 89 == 7:
+                        res.samples.append({"doc": text, "path": ptext,
+                                            "entry": entry})
+        for ptext in paths:
+            res.label("grammar:" + ("keyword" if ptext.endswith(")]")
+                                    else "search"))
     else:
         _run_hyp(shard, res, dl)
     return res
